@@ -134,7 +134,7 @@ type Run struct {
 	assumeNotes []string
 	inputs   []inputVar // named inputs for model projection
 	callN, qctr, noDef, probing int
-	havocN, noAssume            int
+	havocN, noAssume, allocN    int
 	pureInsts  map[string]*pureInst
 	guards     map[string]*Term
 	topRets    []retRec
